@@ -9,8 +9,10 @@
    the creation time).  An entry is what the key cache knows about a file (xpub, alias) plus the
    file itself ([keyfile] of Model.v; the file's own alias field is [kf_alias]).  The cache is
    rebuilt from the files by [reload] (at most every 2 s, and on every Restore): after any
-   sequence of whole operations the cache alias equals the file alias, so reloading changes nothing;
-   the two are kept apart only for the interleaving witness [reset_begin]/[reset_finish].
+   sequence of whole operations the cache alias equals the file alias (c28_store_alias_consistent),
+   so reloading changes nothing.  XCreate / ImportKeyFromMnemonic / UpdateKeyAlias / ResetPassword /
+   LoadChainKDKey (XSign) / Restore each run entirely under the HSM lock cacheMu: however their
+   callers interleave, the store sees a sequence of whole operations.
    The file replaced by ResetPassword / UpdateKeyAlias and removed by XDelete is the one
    [find] returned, which is the only entry with that xpub.
    Several stores (directories) are kept by number; Backup of one store is restored into another
@@ -94,17 +96,13 @@ Section STORE.
     else SOk (st ++ [{| se_xpub := xpub_bytes k; se_alias := alias;
                         se_kf := encrypt_key kdf ctr mac_hash k alias pw salt iv |}]).
 
-  (* ResetPassword = loadDecryptedKey; StoreKey(file, key, newAuth): the key and its alias are
-     those DecryptKey returned (the alias of the FILE as it was when it was read); the cache entry
-     is left as it is.  The two halves are separate definitions because ResetPassword does not
-     hold the HSM lock between them (see c28_refuted_reset_alias_race) *)
-  Definition reset_begin (st : store) (xp old : bytes) : sres (sentry * xprv) := load_dec st xp old.
-  Definition reset_finish (st : store) (xp : bytes) (loaded : sentry * xprv) (new salt iv : bytes) : store :=
-    let (e, k) := loaded in
-    put_file st xp (encrypt_key kdf ctr mac_hash k (kf_alias (se_kf e)) new salt iv).
+  (* ResetPassword (under the HSM lock cacheMu, like UpdateKeyAlias and LoadChainKDKey/XSign, since
+     the repair e8f4d605): loadDecryptedKey; StoreKey(file, key, newAuth).  The key and its alias are
+     those DecryptKey returned (the alias of the FILE); the cache entry is left as it is.  The
+     pinned tree did not hold the lock between the read and the write: C28/History.v *)
   Definition s_reset (st : store) (xp old new salt iv : bytes) : sres store :=
-    match reset_begin st xp old with
-    | SOk l => SOk (reset_finish st xp l new salt iv)
+    match load_dec st xp old with
+    | SOk (e, k) => SOk (put_file st xp (encrypt_key kdf ctr mac_hash k (kf_alias (se_kf e)) new salt iv))
     | SErr e => SErr e
     end.
 
